@@ -8,9 +8,12 @@ value); strings travel as `Driver.charsToHex` tokens ("-" = empty); `~` is None.
 
 Scenario header (each answers `ok`):
   reset <n> <firstSerial_0> … <firstSerial_{n-1}>
-  export <j> <path> <k> { <ifname> <m> { <name> <sigIn> <sigOut> <nargs> <nret> }^m }^k
+  export <j> <path> <c> { <hasIfaces 0|1> [<k> {iface}^k] <a> { <attr> <id> <decoIface|~> <decoMember|~> }^a }^c
+        the object's class chain in __mro__ order; iface = <ifname> <m> { <name> <sigIn> <sigOut> <nargs> <nret> }^m;
+        attrs = the functions of the class __dict__ (id = number of the Python function)
   intro <j> <path> <V>                      World.introspect j path = some V
-  managed <j> <path> <V>                    World.managed j path = V
+  managed <j> <path> <V>                    World.managed j path = ok V
+  managederr <j> <path> <dbusName|~> <cls> <text>     World.managed j path = error exc
   unenc <sig> <n> <V>^n <dbusName|~> <cls> <text>      World.encErr sig body = some exc
   badname <name>                            World.validErrorName name = false
 Steps:
@@ -22,7 +25,7 @@ Steps:
         beh = deferred | obj <V> | seq <self> <n> <V>^n | raised <dbusName|~> <cls> <text>
   resolve <c> <tok> <result>                -> idle | <effects…>          (result = beh without `deferred`)
   quiescent                                 -> yes | no
-Effects, in this order: inv(<sender>,<serial>,<path>,<iface>,<member>,[args]) exec(<tok>) sent(<msg>)
+Effects, in this order: inv(<sender>,<serial>,<path>,<iface>,<member>,[args],<impl id>) exec(<tok>) sent(<msg>)
 done(<serial>,<outcome>).  Outcomes print as the harness sees them: `val,<token>` where the token of
 `callback(body)` (a Python list) is the valcodec list token `L_<n>_<elems>` and `callback(None)` is `N`.
 -/
@@ -36,14 +39,14 @@ structure St where
   net : Net V
   exports : List (Nat × ExpObj)
   intro : List (Nat × String × V)
-  managed : List (Nat × String × V)
+  managed : List (Nat × String × Except Exc V)
   unenc : List (String × List V × Exc)
   badnames : List String
 
 def St.world (s : St) : World V :=
   { exports := fun j => (s.exports.filter (fun e => e.1 == j)).map (·.2),
     introspect := fun j p => (s.intro.find? (fun e => e.1 == j && e.2.1 == p)).map (·.2.2),
-    managed := fun j p => ((s.managed.find? (fun e => e.1 == j && e.2.1 == p)).map (·.2.2)).getD "",
+    managed := fun j p => ((s.managed.find? (fun e => e.1 == j && e.2.1 == p)).map (·.2.2)).getD (.ok ""),
     encErr := fun sig body => (s.unenc.find? (fun e => e.1 == sig && e.2.1 == body)).map (·.2.2),
     validErrorName := fun n => !(s.badnames.contains n) }
 
@@ -86,6 +89,32 @@ def pIface : List String → Option (Iface × List String)
 
 def pIfaces : List String → Option (List Iface × List String)
   | k :: ts => do takeN pIface (← nat? k) ts
+  | [] => none
+
+def pAttr : List String → Option ((String × Func) × List String)
+  | a :: i :: di :: dm :: ts => do
+    let deco ← match optStr? di, optStr? dm with
+      | some (some x), some (some y) => some (some (x, y))
+      | some none, some none => some none
+      | _, _ => none
+    pure ((← str? a, { id := ← nat? i, deco := deco }), ts)
+  | _ => none
+
+def pClass : List String → Option (Class × List String)
+  | "1" :: ts => do
+    let (is, ts) ← pIfaces ts
+    match ts with
+    | a :: ts => do
+      let (attrs, ts) ← takeN pAttr (← nat? a) ts
+      pure ({ ifaces := some is, attrs := attrs }, ts)
+    | [] => none
+  | "0" :: a :: ts => do
+    let (attrs, ts) ← takeN pAttr (← nat? a) ts
+    pure ({ ifaces := none, attrs := attrs }, ts)
+  | _ => none
+
+def pClasses : List String → Option (List Class × List String)
+  | c :: ts => do takeN pClass (← nat? c) ts
   | [] => none
 
 def pExc : List String → Option (Exc × List String)
@@ -135,7 +164,7 @@ def showOutcome : Outcome V → String
 
 def showInv (i : Invocation V) : String :=
   "inv(" ++ no i.sender ++ "," ++ toString i.serial ++ "," ++ hs i.path ++ "," ++ hs i.iface ++ "," ++ hs i.member
-    ++ "," ++ vals i.args ++ ")"
+    ++ "," ++ vals i.args ++ "," ++ toString i.impl ++ ")"
 
 /-- What happened on client `c` between two states. -/
 def effects (old new : Client V) : List String :=
@@ -172,8 +201,8 @@ def handle (s : St) (line : String) : St × String :=
       ({ St.init with net := Net.init n (fun j => firsts.getD j 1) }, "ok")
     | _, _ => bad s "reset"
   | "export" :: j :: p :: ts =>
-    match nat? j, str? p, pIfaces ts with
-    | some j, some p, some (is, []) => ({ s with exports := s.exports ++ [(j, { path := p, ifaces := is })] }, "ok")
+    match nat? j, str? p, pClasses ts with
+    | some j, some p, some (cs, []) => ({ s with exports := s.exports ++ [(j, { path := p, classes := cs })] }, "ok")
     | _, _, _ => bad s "export"
   | ["intro", j, p, v] =>
     match nat? j, str? p with
@@ -181,8 +210,12 @@ def handle (s : St) (line : String) : St × String :=
     | _, _ => bad s "intro"
   | ["managed", j, p, v] =>
     match nat? j, str? p with
-    | some j, some p => ({ s with managed := s.managed ++ [(j, p, v)] }, "ok")
+    | some j, some p => ({ s with managed := s.managed ++ [(j, p, .ok v)] }, "ok")
     | _, _ => bad s "managed"
+  | "managederr" :: j :: p :: ts =>
+    match nat? j, str? p, pExc ts with
+    | some j, some p, some (e, []) => ({ s with managed := s.managed ++ [(j, p, .error e)] }, "ok")
+    | _, _, _ => bad s "managederr"
   | "unenc" :: sig :: ts =>
     match str? sig, pVals ts with
     | some sig, some (body, ts) =>
